@@ -25,7 +25,17 @@
      (Weak::upgrade fails) is skipped without setting sent_at_least_once) and
      [AEnd] (metrics.update: num_updates += 1, num_dropped_updates += 1 unless
      sent_at_least_once: GateMetrics::update 1030-1045);
-   * the link side: connect() = [ASendSub] (+ the answer inside [ARoot]),
+   * the link side: connect() = [ASendSub] (Subscribe queued), the answer put
+     into the oneshot inside [ARoot] ([LAnsw]), [APick] (the connect() future
+     is polled again and returns: [LConn]); [AAbandon]: the future returned by
+     connect() / query() is DROPPED half-way ("can be dropped safely at any
+     time", doc of Link::query) - before the gate got to the Subscribe (the
+     queued command now carries a oneshot sender whose receiver is gone:
+     [CSubDead]; the gate will insert the slot, fail to answer and REMOVE the
+     slot again, Gate::subscribe), or after the gate answered but before the
+     answer was picked up ([LAnsw]: the SubscribeResponse dies with the
+     oneshot; PendingSubscription::drop takes it out and gives the slot back
+     with Unsubscribe - [cf_guard]);
      disconnect() = [ASendUnsub] (the receiver is dropped at once),
      suspend()/resume = [ASendSusp], query() = [ARecv]; [ARxDrop x]: the
      receiving end of slot x goes away while the slot is still registered (the
@@ -46,7 +56,8 @@ Definition entry := (N * N)%type.
 (* commands on the root gate's queue / on a clone's queue *)
 Inductive cmd :=
 | CSub (l : N) | CUnsub (s : N) | CSusp (s : N) (b : bool)
-| CAttach (c : N) | CDetach (c : N) | CTerm.
+| CAttach (c : N) | CDetach (c : N) | CTerm
+| CSubDead (l : N).   (* a Subscribe whose requester has gone away: nobody holds the oneshot receiver *)
 Inductive ccmd := FSub (e : entry) | FUnsub (s : N) | FTerm.
 
 (* notify_clones in progress: the sends still to do, in order; [NFinTerm] =
@@ -62,15 +73,22 @@ Inductive pstate :=
 | PIdle (next : N)
 | PSending (seq : N) (snap rest : list entry) (sent : bool).
 
-Inductive lstate := LIdle | LPending | LConn (s : N) (susp : bool).
+(* LPending: Subscribe queued, connect() waits for the answer; LAnsw s: the gate has answered
+   (slot s; the answer sits in the oneshot), connect() has not been polled since; LConn: connect()
+   has returned *)
+Inductive lstate := LIdle | LPending | LConn (s : N) (susp : bool) | LAnsw (s : N).
 
 Record clone := MkClone { c_alive : bool; c_att : bool; c_term : bool; c_q : list ccmd }.
 Record chan := MkChan { ch_q : list (N * N); ch_rx : bool }.
 
 (* cf_cap: Gate::new(queue_size). cf_follow = true is the code as it was at the
    pinned commit: a clone handling FollowSubscribe / FollowUnsubscribe mutates
-   `updates`, which it SHARES (Arc) with the root; false = after the repair. *)
-Record cfg := MkCfg { cf_cap : N; cf_follow : bool }.
+   `updates`, which it SHARES (Arc) with the root; false = after the repair.
+   cf_guard = false is Link::connect as it was: an answer that is in the oneshot
+   when the connect() future is dropped is lost, and the slot it names stays in
+   the gate with nobody knowing its id; true = after the repair
+   (PendingSubscription: the slot is handed back with Unsubscribe). *)
+Record cfg := MkCfg { cf_cap : N; cf_follow : bool; cf_guard : bool }.
 
 Record st := MkSt {
   upd : list entry;            (* Gate.updates, in FrimMap (vector) order *)
@@ -184,16 +202,28 @@ Inductive action :=
 | ASendTerm | ARoot | ARootDrop
 | AClone | ACloneStep (c : N) | ACloneDrop (c : N)
 | ABegin (p : N) | ADeliver (p : N) | AEnd (p : N)
-| ARxDrop (x : N).
+| ARxDrop (x : N)
+| APick (l : N) | AAbandon (l : N).
+
+(* the connect() future of link l is dropped while its Subscribe is still queued: the oneshot
+   receiver inside the queued command is gone *)
+Definition kill_sub (l : N) (c : cmd) : cmd :=
+  match c with CSub l' => if N.eqb l' l then CSubDead l' else c | _ => c end.
 
 Definition root_handle (s : st) (c : cmd) : st :=
   match c with
   | CSub l =>
-      (* subscribe(): insert the slot, THEN answer, then FollowSubscribe to the clones *)
+      (* subscribe(): insert the slot, THEN answer (response.send() is Ok: the requester still
+         holds the oneshot receiver), then FollowSubscribe to the clones *)
       let e := (nslot s, l) in
       start_note (FSub e)
-        (set_links (fupd (links s) l (LConn (nslot s) false))
+        (set_links (fupd (links s) l (LAnsw (nslot s)))
            (set_nslot (nslot s + 1) (set_upd (m_ins e (upd s)) s)))
+  | CSubDead l =>
+      (* subscribe() for a requester that went away: insert the slot, response.send() is Err,
+         `self.updates.remove(&subscription.slot)`; the clones are not told *)
+      let e := (nslot s, l) in
+      set_nslot (nslot s + 1) (set_upd (m_del (nslot s) (m_ins e (upd s))) s)
   | CUnsub x =>
       start_note (FUnsub x)
         (set_upd (m_del x (upd s)) (set_sus (m_del x (sus s)) s))
@@ -317,6 +347,27 @@ Definition step (cf : cfg) (s : st) (a : action) : st :=
       | _ => s
       end
   | ARxDrop x => set_chans (fupd (chans s) x (MkChan [] false)) s
+  | APick l =>
+      (* the connect() future is polled again: rx.await yields the SubscribeResponse *)
+      match links s l with
+      | LAnsw x => set_links (fupd (links s) l (LConn x false)) s
+      | _ => s
+      end
+  | AAbandon l =>
+      (* the connect() / query() future is dropped *)
+      match links s l with
+      | LPending =>
+          (* before the gate got to the command (if the gate is gone the command is never looked at) *)
+          set_rootq (map (kill_sub l) (rootq s)) (set_links (fupd (links s) l LIdle) s)
+      | LAnsw x =>
+          (* after the gate answered: the SubscribeResponse (slot id; a queue link's receiver) goes
+             with the oneshot. PendingSubscription::drop: close(), try_recv() finds the answer,
+             Unsubscribe { slot } is sent (try_send: queued at once) *)
+          let s1 := set_links (fupd (links s) l LIdle) s in
+          let s2 := if cf_guard cf then set_rootq (rootq s ++ [CUnsub x]) s1 else s1 in
+          if is_direct l then s2 else set_chans (fupd (chans s) x (MkChan [] false)) s2
+      | _ => s
+      end
   end.
 
 Definition init : st :=
@@ -351,6 +402,10 @@ Definition all_gone (s : st) : bool :=
    suspension request of its own still on its way to the gate *)
 Definition susp_pending (x : N) (q : list cmd) : bool :=
   existsb (fun c => match c with CSusp y _ => N.eqb x y | _ => false end) q.
+(* the slot a link holds: connect() has returned, or the answer naming it waits in the oneshot *)
+Definition holds_slot (ls : lstate) (x : N) : Prop :=
+  (exists b, ls = LConn x b) \/ ls = LAnsw x.
+
 Definition link_active (s : st) (l x : N) : Prop :=
   links s l = LConn x false /\ susp_pending x (rootq s) = false.
 
